@@ -257,6 +257,10 @@ func (flogs *fileLogs) ReadAll(dataID, version dvid.UUID) ([]storage.LogMessage,
 			entryType := binary.LittleEndian.Uint16(data[pos : pos+2])
 			size := int64(binary.LittleEndian.Uint32(data[pos+2 : pos+6]))
 			pos += 6
+			if size > int64(len(data))-pos {
+				dvid.Criticalf("incomplete last entry in filelog %q at position %d\n", filename, pos-6)
+				break
+			}
 			databuf := data[pos : pos+size]
 			pos += size
 			msg := storage.LogMessage{EntryType: entryType, Data: databuf}
@@ -315,15 +319,19 @@ func (flogs *fileLogs) StreamAll(dataID, version dvid.UUID, ch chan storage.LogM
 	f.Close()
 
 	if len(data) > 0 {
-		var pos uint32
+		var pos int64
 		for {
-			if len(data) < int(pos+6) {
+			if int64(len(data)) < pos+6 {
 				dvid.Criticalf("malformed filelog %q at position %d\n", filename, pos)
 				break
 			}
 			entryType := binary.LittleEndian.Uint16(data[pos : pos+2])
-			size := binary.LittleEndian.Uint32(data[pos+2 : pos+6])
+			size := int64(binary.LittleEndian.Uint32(data[pos+2 : pos+6]))
 			pos += 6
+			if size > int64(len(data))-pos {
+				dvid.Criticalf("incomplete last entry in filelog %q at position %d\n", filename, pos-6)
+				break
+			}
 			databuf := data[pos : pos+size]
 			pos += size
 			ch <- storage.LogMessage{EntryType: entryType, Data: databuf}
